@@ -29,6 +29,7 @@ void sym_inputs(void)
 #ifdef REPLAY
 #include "replay_inputs.inc"
 #else
+  SYM_FEED();
   SYM_ARR(msg); SYM(msglen); SYM_ARR(tail);
 #endif
 }
